@@ -45,6 +45,9 @@ def explore(ctx):
                 lines.append(base + " ctype=0 script=setseq/%d;call/c1/%s/%s/0/%s/0" % (seq, me.hex(), T(arg), tagspec(tags)))
             elif kind == "callc":
                 ct = rng.choice([1, 2, 3, 77])
+                if ct == 2:      # msgpackzip's trouble with integer map keys is C06's (known finding), not the wire format's
+                    arg = mp.zip_safe(arg)
+                    base = "enc e%d kind=%s max=1048576 protocols=%s seq=%d meth=%s arg=%s tags=%s" % (k, kind, protos, seq, me.hex(), T(arg), tagspec(tags))
                 lines.append(base + " ctype=%d script=setseq/%d;call/c1/%s/%s/%d/%s/0" % (ct, seq, me.hex(), T(arg), ct, tagspec(tags)))
             elif kind == "notify":
                 lines.append(base + " script=notify/c1/%s/%s/%s/0" % (me.hex(), T(arg), tagspec(tags)))
